@@ -124,15 +124,16 @@ Section Link.
 
   Definition bp_hsrc (t : itable) : list (nat * (Z * Z)) := map (fun e => (fst e, (rba_of s (fst e), snd e))) t.
 
-  Lemma bp_link_sim : forall es known st2,
+  Lemma bp_link_sim fx ents : forall es known st2,
     Forall (fun p => bp_placed s (fst p)) es -> Forall (bp_placed s) known ->
     l2_e2i st2 = bp_e2i s known ->
-    bp_link w (lspace l) (map (fun p : nat * Z => (rba_of s (fst p), snd p, fst p)) es) st2 =
-    mk_lstate2 (l2_tbl st2 ++ bp_hsrc (bp_hidden s es known))
-               (bp_e2i s (known ++ map fst (bp_hidden s es known)))
+    fold_left (bp_link1 fx w (lspace l) (map (rba_of s) ents))
+              (map (fun p : nat * Z => (rba_of s (fst p), snd p, fst p)) es) st2 =
+    mk_lstate2 (l2_tbl st2 ++ bp_hsrc (bp_hidden fx s ents es known))
+               (bp_e2i s (known ++ map fst (bp_hidden fx s ents es known)))
                (l2_inos st2 ++ map fst es).
   Proof.
-    unfold bp_link. induction es as [|[i sc] r IH]; intros known st2 Hes Hk He.
+    induction es as [|[i sc] r IH]; intros known st2 Hes Hk He.
     - cbn [map fold_left bp_hidden bp_hsrc]. rewrite !app_nil_r, <- He. destruct st2; reflexivity.
     - inversion Hes as [|? ? Hi Hr]; subst. cbn [fst] in Hi.
       cbn [map fold_left fst snd bp_hidden]. unfold bp_link1 at 2. rewrite He.
@@ -142,15 +143,27 @@ Section Link.
       + rewrite (bp_hidden_len_view i sc Hi).
         assert (Hmf : map fst (bp_e2i s known) = map (rba_of s) known).
         { unfold bp_e2i. rewrite map_map. reflexivity. }
-        rewrite Hmf. fold tbl. fold (bp_newlen s known i sc).
+        rewrite Hmf. fold tbl. fold (bp_newlen fx s ents known i sc).
         rewrite (IH (known ++ [i])); [|exact Hr|apply Forall_app; split; [exact Hk|constructor; [exact Hi|constructor]]|].
         * cbn [l2_tbl l2_inos bp_hsrc map fst snd]. rewrite <- !app_assoc. reflexivity.
         * cbn [l2_e2i]. unfold bp_e2i. rewrite map_app. reflexivity.
   Qed.
 
+  Lemma bp_link_view fx : forall es known st2,
+    Forall (fun p => bp_placed s (fst p)) es -> Forall (bp_placed s) known ->
+    l2_e2i st2 = bp_e2i s known ->
+    bp_link fx w (lspace l) (map (fun p : nat * Z => (rba_of s (fst p), snd p, fst p)) es) st2 =
+    mk_lstate2 (l2_tbl st2 ++ bp_hsrc (bp_hidden fx s (map fst es) es known))
+               (bp_e2i s (known ++ map fst (bp_hidden fx s (map fst es) es known)))
+               (l2_inos st2 ++ map fst es).
+  Proof.
+    intros es known st2 H1 H2 H3. unfold bp_link. rewrite map_map. cbn [fst].
+    rewrite <- (map_map fst (rba_of s)). apply bp_link_sim; assumption.
+  Qed.
+
   (* every entry's inode is known after the loop *)
-  Lemma bp_hidden_covers i : forall es known, In i (map fst es) ->
-    mem i known = true \/ In i (map fst (bp_hidden s es known)).
+  Lemma bp_hidden_covers fx ents i : forall es known, In i (map fst es) ->
+    mem i known = true \/ In i (map fst (bp_hidden fx s ents es known)).
   Proof.
     induction es as [|[j sc] r IH]; intros known H; [destruct H|]. cbn [map fst In] in H. cbn [bp_hidden].
     destruct H as [->|H].
@@ -161,7 +174,7 @@ Section Link.
       cbn [existsb] in H1. rewrite orb_false_r in H1. apply Nat.eqb_eq in H1. subst. right. left. reflexivity.
   Qed.
 
-  Lemma bp_hidden_ids : forall es known j, In j (map fst (bp_hidden s es known)) -> In j (map fst es).
+  Lemma bp_hidden_ids fx ents : forall es known j, In j (map fst (bp_hidden fx s ents es known)) -> In j (map fst es).
   Proof.
     induction es as [|[i sc] r IH]; intros known j H; [destruct H|]. cbn [bp_hidden] in H. cbn [map fst In].
     destruct (mem i known); [right; eapply IH; exact H|].
